@@ -1029,7 +1029,7 @@ def run(tier="quick", seed=0):
             else:
                 chk.t0 = min(chk.t0, t0)
                 merged[chk.name] = chk
-    bound = "TermCanvas with a fake widget; robustness: 24-byte alphabet strings <= " + ("2 (+sampled 3)" if tier == "quick" else "3") + f" x sizes {SIZES} x resizes/chunkings x encodings, all CSI finals x parameter lists incl. 70000 and 10^9, OSC/charset/UTF-8 payloads, scrolled-back view x resizes; faithfulness: exhaustive token sequences per family (length 3-7 by family) + seeded random mixes vs spec/vt100.py; scrollback: token sequences <= " + ("4" if tier == "quick" else "5")
+    bound = "TermCanvas with a fake widget; robustness: 24-byte alphabet strings <= " + ("2 (+sampled 3)" if tier == "quick" else "3") + f" x sizes {SIZES} x resizes/chunkings x encodings, all CSI finals x parameter lists incl. 70000 and 10^9, OSC/charset/UTF-8 payloads, scrolled-back view x resizes; no two rows of term/scroll-back the same object after every step; faithfulness: exhaustive token sequences per family (length 3-7 by family; incl. resizes as tokens from 3x2 to heights +1/+2/+3 and widths +2/+3 with empty and partly sufficient scroll-back, SGR sequences mixing 24-bit/256/basic/bright colours with non-resetting SGRs, one-column screens) + seeded random mixes vs spec/vt100.py; scrollback: token sequences <= " + ("4" if tier == "quick" else "5")
     return {"checks": [c.result() for c in merged.values()], "bound": bound}
 
 
